@@ -354,10 +354,11 @@ func (r *resource) QueryEvent(cb func(QueryRequest)) {
 	}
 
 	qe := &queryEvent{
-		r:   *r,
-		sub: sub,
-		ch:  ch,
-		cb:  cb,
+		r:    *r,
+		sub:  sub,
+		ch:   ch,
+		cb:   cb,
+		done: make(chan struct{}),
 	}
 
 	r.s.event("event."+r.rname+".query", resQueryEvent{Subject: qsubj})
